@@ -28,7 +28,7 @@ use std::time::Duration;
 pub const META: PropMeta = PropMeta {
     id: "C19",
     level: "exploration",
-    rule: "cases: histories of <= 12 ops over one Signals source at a time: new/add_signals/remove_signals/set_signals with lists over D = {HUP,USR1,USR2,WINCH,URG,CHLD,CONT,IO} (empty lists, duplicates, overlap with the current set), raise(s) thread-directed (libc::raise) or process-directed (kill(getpid())), insert into / remove from an EventLoop (Dispatcher), dispatch(0), drop. After EVERY op the thread mask, sigpending() and per-signal handler counters are compared with a model (configured set, thread-private and shared pending sets, handler counts); on dispatch the callback events are compared with the pending configured instances (signal, pid, uid, si_code). non-trivial: >= 1 add/remove/set call that changed the configured set after creation AND >= 1 signal raised while configured (so it went pending) that saw a later add/remove/set call while still pending and whose delivery (callback or handler) was then checked. distinct: fingerprint of the effective op list (no-op ops removed)",
+    rule: "cases: histories of <= 12 ops over one Signals source at a time: new/add_signals/remove_signals/set_signals with lists over D = {HUP,USR1,USR2,WINCH,URG,CHLD,CONT,IO} (empty lists, duplicates, overlap with the current set), raise(s) thread-directed (libc::raise) or process-directed (kill(getpid())), the application blocking/unblocking a signal outside D for itself (the source must leave it alone), insert into / remove from an EventLoop (Dispatcher), dispatch(0), drop. After EVERY op the thread mask, sigpending() and per-signal handler counters are compared with a model (configured set, thread-private and shared pending sets, handler counts); on dispatch the callback events are compared with the pending configured instances (signal, pid, uid, si_code). non-trivial: >= 1 add/remove/set call that changed the configured set after creation AND >= 1 signal raised while configured (so it went pending) that saw a later add/remove/set call while still pending and whose delivery (callback or handler) was then checked. distinct: fingerprint of the effective op list (no-op ops removed)",
     assumptions: &[
         "the check process has exactly one thread (verified via /proc/self/task before and after)",
         "no foreign process sends signals of D to the check process (handler-side sender check turns that into an infrastructure error)",
@@ -105,8 +105,21 @@ fn sigset_of(bits: u8) -> libc::sigset_t {
     }
 }
 
+/// A signal outside D that the "application" (the harness) blocks for itself; it is never raised.
+const FOREIGN_SIG: i32 = libc::SIGVTALRM;
+
+fn foreign_block(on: bool) {
+    unsafe {
+        let mut set: libc::sigset_t = std::mem::zeroed();
+        libc::sigemptyset(&mut set);
+        libc::sigaddset(&mut set, FOREIGN_SIG);
+        libc::pthread_sigmask(if on { libc::SIG_BLOCK } else { libc::SIG_UNBLOCK }, &set, std::ptr::null_mut());
+    }
+}
+
 /// Unblock all of D; with the counting handlers installed this drains every pending instance.
 fn unblock_domain() {
+    foreign_block(false);
     let set = sigset_of(0xFF);
     unsafe {
         libc::pthread_sigmask(libc::SIG_UNBLOCK, &set, std::ptr::null_mut());
@@ -273,6 +286,9 @@ pub enum Op {
     Dispatch,
     /// remove from the loop if inserted, then drop the source
     DropSrc,
+    /// the application itself blocks (true) / unblocks (false) a signal outside D (SIGVTALRM, never raised):
+    /// the source must leave it alone ("exactly the configured signals" are its business)
+    AppBlock(bool),
 }
 
 #[derive(Serialize, Deserialize, Debug, Clone, Hash)]
@@ -298,9 +314,9 @@ fn op_strategy() -> impl Strategy<Value = Op> {
         5 => (sig_strategy(), any::<bool>()).prop_map(|(sig, process)| Op::Raise { sig, process }),
         6 => (any::<u8>(), any::<bool>()).prop_map(|(pick, process)| Op::RaiseCfg { pick, process }),
         2 => Just(Op::Insert),
-        1 => Just(Op::Unplug),
         5 => Just(Op::Dispatch),
-        1 => Just(Op::DropSrc),
+        // (nested: prop_oneof! boxes, and loses Sync, beyond 10 arms)
+        4 => prop_oneof![1 => Just(Op::Unplug), 1 => Just(Op::DropSrc), 2 => any::<bool>().prop_map(Op::AppBlock)],
     ]
 }
 
@@ -707,6 +723,19 @@ impl Run {
                 }
                 if let Some(v) = compare_events(opi, op, &evs, &want) {
                     return Step::Bad(v);
+                }
+            }
+            Op::AppBlock(on) => {
+                let bit = 1u64 << (FOREIGN_SIG - 1);
+                if (self.base_mask & bit != 0) == *on {
+                    return Step::Skipped;
+                }
+                foreign_block(*on);
+                if *on {
+                    self.base_mask |= bit;
+                    self.class("app_blocked_foreign_signal");
+                } else {
+                    self.base_mask &= !bit;
                 }
             }
             Op::DropSrc => {
